@@ -20,7 +20,8 @@ void tr(std::string const& s) { if (g_trace) { *g_trace += s; *g_trace += "\n"; 
 
 // ---------------------------------------------------------------------------------------------
 // one program = a combination of components (bits) run in ONE simulation
-// bit0 timers, bit1 tcp loss-free, bit2 tcp lossy, bit3 udp burst with tail drops, bit4 resolver, bit5 NAT on the client route
+// bit0 timers, bit1 tcp loss-free, bit2 tcp lossy, bit3 udp burst with tail drops, bit4 resolver, bit5 NAT on the client route,
+// bit6 every socket the program uses is move-constructed (into fresh heap memory) from the one that was opened and bound
 // special programs: 1000 = throws from a handler mid-way; 1001 = runs to a huge clock value and is left stop()ped
 // ---------------------------------------------------------------------------------------------
 // the program's own timer objects live in an arena whose slot order an environment can reverse: same program, same API calls,
@@ -86,6 +87,7 @@ void run_program(int p, std::string const& pcap)
 		int n = lossy ? 30000 : 5000; k->wc.resize(size_t(n)); k->ws.resize(size_t(n / 3)); for (size_t j = 0; j < k->wc.size(); ++j) k->wc[j] = pb(lossy * 2, int64_t(j)); for (size_t j = 0; j < k->ws.size(); ++j) k->ws[j] = pb(lossy * 2 + 1, int64_t(j));
 		k->a.reset(new ip::tcp::acceptor(nB)); k->a->open(ip::tcp::v4()); k->a->bind(ip::tcp::endpoint(addr("10.0.1.1"), (unsigned short)(6000 + lossy))); k->a->listen();
 		k->c.reset(new ip::tcp::socket(lossy ? nA2 : nA)); k->s.reset(new ip::tcp::socket(nB));
+		if (p & 64) { k->c->open(ip::tcp::v4()); std::unique_ptr<ip::tcp::socket> m1(new ip::tcp::socket(std::move(*k->c))); k->c = std::move(m1); std::unique_ptr<ip::tcp::socket> m2(new ip::tcp::socket(std::move(*k->s))); k->s = std::move(m2); }
 		auto pe = std::make_shared<ip::tcp::endpoint>();
 		k->a->async_accept(*k->s, *pe, [&, k, pe](error_code const& ec) { error_code e2; H(fmt("tcp%d accept %s peer %s remote %s local %s", k->id, ecs(ec).c_str(), eps(*pe).c_str(), eps(k->s->remote_endpoint(e2)).c_str(), eps(k->s->local_endpoint(e2)).c_str())); if (ec) return; writer(k, false); reader(k, false); });
 		k->c->async_connect(ip::tcp::endpoint(addr("10.0.1.1"), (unsigned short)(6000 + lossy)), [&, k](error_code const& ec) { error_code e2; H(fmt("tcp%d connect %s local %s remote %s", k->id, ecs(ec).c_str(), eps(k->c->local_endpoint(e2)).c_str(), eps(k->c->remote_endpoint(e2)).c_str())); if (ec) return; writer(k, true); reader(k, true); });
@@ -96,6 +98,7 @@ void run_program(int p, std::string const& pcap)
 		ua.reset(new ip::udp::socket(nA)); ub.reset(new ip::udp::socket(nB));
 		ua->open(ip::udp::v4()); ua->bind(ip::udp::endpoint(ip::address_v4::any(), 0)); ua->non_blocking(true);
 		ub->open(ip::udp::v4()); ub->bind(ip::udp::endpoint(addr("10.0.1.1"), 5500)); ub->non_blocking(true);
+		if (p & 64) { std::unique_ptr<ip::udp::socket> m1(new ip::udp::socket(std::move(*ua))); ua = std::move(m1); std::unique_ptr<ip::udp::socket> m2(new ip::udp::socket(std::move(*ub))); ub = std::move(m2); }
 		tr("udp local " + eps(ua->local_endpoint()));
 		urecv = [&]() { ub->async_receive_from(asio::buffer(ubuf), ufrom, [&](error_code const& ec, std::size_t n) { H(fmt("udp recv %s %zu from %s h=%llx", ecs(ec).c_str(), n, eps(ufrom).c_str(), (unsigned long long)fnv(ubuf.data(), n))); if (!ec) urecv(); }); };
 		urecv();
@@ -180,7 +183,7 @@ struct DetEngine : Engine
 	std::vector<int> progs; std::string self;
 	uint64_t units(Args const& a) override
 	{
-		progs.clear(); for (int p = 1; p < 64; ++p) progs.push_back(p);
+		progs.clear(); for (int p = 1; p < 128; ++p) if (p < 64 || (p & 14)) progs.push_back(p);
 		char b[4096]; ssize_t n = ::readlink("/proc/self/exe", b, sizeof b - 1); self.assign(b, n > 0 ? size_t(n) : 0);
 		(void)a; return progs.size();
 	}
